@@ -50,7 +50,7 @@ def main():
         # the machinery against the patched tree
         checks = {}
         for pid in meta.get("check_properties", [meta["property"]]):
-            rc, out = sh("VF_REPO=%s VF_JOBS=4 python3 %s/vf/check.py %s --no-evidence --no-canary 2>&1 | grep -E 'VIOLATION|UNDECIDED|^OK|KNOWN' | head -12" % (wt, V, pid), timeout=3000)
+            rc, out = sh("VF_REPO=%s VF_JOBS=5 python3 %s/vf/check.py %s --no-evidence --no-canary 2>&1 | grep -E 'VIOLATION|UNDECIDED|^OK|KNOWN' | head -12" % (wt, V, pid), timeout=3000)
             rc2, _ = sh("true")
             checks[pid] = out.strip().split("\n")
         rec["checks_on_patched_tree"] = checks
